@@ -33,7 +33,6 @@ import (
 	"sync"
 	"sync/atomic"
 	"testing"
-	"time"
 
 	"github.com/containernetworking/cni/pkg/skel"
 	v3 "github.com/projectcalico/api/pkg/apis/projectcalico/v3"
@@ -73,22 +72,33 @@ type c38Scenario struct {
 	BS4    int
 	Pool6  string
 	BS6    int
-	QDepth int // history bound in the quick tier (0: scenario only runs in the thorough tier)
-	TDepth int // history bound in the thorough tier
+	Quick, Thorough []c38Pass
+}
+
+// c38Pass is one bounded search of a scenario: histories of at most Depth commands, of which at
+// most Faulty run with injected faults (0: no limit), each with at most PerCmd faults.
+type c38Pass struct {
+	Depth, Faulty, PerCmd int
 }
 
 func c38Scenarios() []c38Scenario {
 	// Tiny pools on purpose: blocks of two addresses, so that "the block fills up", "the host needs
 	// a second block" and "the pool is exhausted" all happen within a handful of commands.
+	P := func(d, f, n int) c38Pass { return c38Pass{Depth: d, Faulty: f, PerCmd: n} }
 	return []c38Scenario{
-		{Name: "cni-v4", V4: true, Pool4: "10.0.0.0/30", BS4: 31, QDepth: 5, TDepth: 6},
-		{Name: "k8s-v4-legacy", K8s: true, V4: true, Legacy: true, Pool4: "10.0.0.0/30", BS4: 31, QDepth: 4, TDepth: 5},
-		{Name: "k8s-dual", K8s: true, V4: true, V6: true, Pool4: "10.0.0.0/30", BS4: 31, Pool6: "fd00::/126", BS6: 127, QDepth: 4, TDepth: 5},
-		{Name: "cni-dual-v6full", V4: true, V6: true, Full6: true, Pool4: "10.0.0.0/30", BS4: 31, Pool6: "fd00::/127", BS6: 127, QDepth: 4, TDepth: 5},
-		{Name: "k8s-dual-v4full", K8s: true, V4: true, V6: true, Full4: true, Legacy: true, Pool4: "10.0.0.0/31", BS4: 31, Pool6: "fd00::/126", BS6: 127, QDepth: 4, TDepth: 5},
-		{Name: "cni-v4-legacy", V4: true, Legacy: true, Pool4: "10.0.0.0/30", BS4: 31, TDepth: 5},
-		{Name: "cni-v6", V6: true, Pool6: "fd00::/126", BS6: 127, TDepth: 5},
-		{Name: "cni-v4-big", V4: true, Pool4: "10.0.0.0/29", BS4: 30, TDepth: 5},
+		{Name: "cni-v4", V4: true, Pool4: "10.0.0.0/30", BS4: 31,
+			Quick: []c38Pass{P(5, 1, 1), P(4, 2, 1)}, Thorough: []c38Pass{P(5, 2, 1), P(4, 0, 1), P(3, 1, 2), P(6, 2, 1)}},
+		{Name: "k8s-v4-legacy", K8s: true, V4: true, Legacy: true, Pool4: "10.0.0.0/30", BS4: 31,
+			Quick: []c38Pass{P(4, 1, 1), P(3, 2, 1)}, Thorough: []c38Pass{P(5, 1, 1), P(4, 2, 1), P(3, 1, 2)}},
+		{Name: "k8s-dual", K8s: true, V4: true, V6: true, Pool4: "10.0.0.0/30", BS4: 31, Pool6: "fd00::/126", BS6: 127,
+			Quick: []c38Pass{P(4, 1, 1), P(2, 0, 1)}, Thorough: []c38Pass{P(5, 1, 1), P(3, 0, 1), P(4, 2, 1), P(2, 1, 2)}},
+		{Name: "cni-dual-v6full", V4: true, V6: true, Full6: true, Pool4: "10.0.0.0/30", BS4: 31, Pool6: "fd00::/127", BS6: 127,
+			Quick: []c38Pass{P(4, 2, 1)}, Thorough: []c38Pass{P(5, 2, 1), P(4, 0, 1), P(3, 1, 2)}},
+		{Name: "k8s-dual-v4full", K8s: true, V4: true, V6: true, Full4: true, Legacy: true, Pool4: "10.0.0.0/31", BS4: 31, Pool6: "fd00::/126", BS6: 127,
+			Quick: []c38Pass{P(4, 1, 1), P(3, 2, 1)}, Thorough: []c38Pass{P(5, 1, 1), P(4, 2, 1), P(3, 1, 2)}},
+		{Name: "cni-v4-legacy", V4: true, Legacy: true, Pool4: "10.0.0.0/30", BS4: 31, Thorough: []c38Pass{P(5, 1, 1), P(4, 2, 1)}},
+		{Name: "cni-v6", V6: true, Pool6: "fd00::/126", BS6: 127, Thorough: []c38Pass{P(5, 1, 1), P(4, 2, 1)}},
+		{Name: "cni-v4-blocks-of-4", V4: true, Pool4: "10.0.0.0/29", BS4: 30, Thorough: []c38Pass{P(5, 1, 1), P(4, 2, 1)}},
 	}
 }
 
@@ -299,14 +309,20 @@ func (r *c38Run) label() string {
 }
 
 // faultClass names the faults of a run by what they hit (stable across runs): "none" or e.g.
-// "C@Update:block4" / "E@Get:handle+C@Delete:handle".
+// "C@Update:block4" / "C@Delete:handle+E@Get:handle" (lost replies first, then in order of occurrence).
 func (r *c38Run) faultClass() string {
-	var fs []string
+	var lost, other []string
 	for _, d := range r.Decs {
 		if !strings.HasPrefix(d.Alt, "p") && d.At < len(r.Points) {
-			fs = append(fs, d.Alt+"@"+r.Points[d.At].Class)
+			f := d.Alt + "@" + r.Points[d.At].Class
+			if d.Alt == "C" {
+				lost = append(lost, f) // lost replies first: they are what leaves state the client does not know about
+			} else {
+				other = append(other, f)
+			}
 		}
 	}
+	fs := append(lost, other...)
 	if len(fs) == 0 {
 		return "none"
 	}
@@ -341,13 +357,8 @@ func c38ParseLabel(s string) (c38Cmd, []c38Dec, error) {
 
 // c38Exec runs one CNI command of the real plugin against a fresh copy of items under the given
 // decisions. v4/v6 override the scenario's families when forced (set-up only).
-var c38T [4]atomic.Int64
-
 func c38Exec(sc *c38Scenario, items []casstore.Item, cmd c38Cmd, decs []c38Dec, lock string, v4, v6 bool) *c38Run {
-	t0 := time.Now()
-	defer func() { c38T[3].Add(int64(time.Since(t0))) }()
 	w := c38NewWorld(items)
-	c38T[0].Add(int64(time.Since(t0)))
 	defer w.close()
 	w.dec = map[int]string{}
 	for _, d := range decs {
@@ -358,15 +369,12 @@ func c38Exec(sc *c38Scenario, items []casstore.Item, cmd c38Cmd, decs []c38Dec, 
 	defer maporder.Unbind()
 	args := &skel.CmdArgs{ContainerID: cmd.C, Netns: "/var/run/netns/" + cmd.C, IfName: "eth0", Args: sc.args(), StdinData: c38Conf(w.id, lock, v4, v6)}
 	r := &c38Run{Cmd: cmd, Decs: decs}
-	t1 := time.Now()
-	defer func() { c38T[2].Add(int64(time.Since(t1))) }()
 	err := vk.Catch(func() error {
 		if cmd.Op == "ADD" {
 			return cmdAdd(args)
 		}
 		return cmdDel(args)
 	})
-	c38T[1].Add(int64(time.Since(t1)))
 	if pe, ok := err.(*vk.PanicError); ok {
 		r.Panic = pe.Val + "\n" + pe.Stack
 	}
@@ -642,7 +650,10 @@ func c38Outcome(err error) string {
 }
 
 // c38Step applies the oracle to one executed command and builds the successor state.
-func c38Step(sc *c38Scenario, s *c38State, r *c38Run, limitFaulty bool) (*c38State, []c38Fail, string) {
+// base is the execution of the same command from the same state with no fault and the default
+// order (nil when r is that execution): a leftover that base leaves too is not caused by r's own
+// faults, which keeps violation keys down to the root cause.
+func c38Step(sc *c38Scenario, s *c38State, r, base *c38Run, limitFaulty bool) (*c38State, []c38Fail, string) {
 	var fails []c38Fail
 	c := r.Cmd.C
 	allocs := c38Allocs(r.Items)
@@ -700,14 +711,24 @@ func c38Step(sc *c38Scenario, s *c38State, r *c38Run, limitFaulty bool) (*c38Sta
 		}
 	case "DEL":
 		if r.Err == nil {
+			alsoInBase := map[string]bool{}
+			if base != nil && base.Err == nil && base.Panic == "" {
+				for _, a := range c38Allocs(base.Items) {
+					alsoInBase[a.Handle+"|"+a.IP] = true
+				}
+			}
 			for _, a := range mine {
 				hk := "cid-handle"
 				if a.Handle == wid {
 					hk = "wid-handle"
 				}
 				p := n.prov[a.Handle+"|"+a.IP]
+				dc := fc
+				if len(r.Decs) == 0 || alsoInBase[a.Handle+"|"+a.IP] {
+					dc = "any" // a fault-free DEL leaves it behind as well
+				}
 				fails = append(fails, c38Fail{
-					Key: fmt.Sprintf("C38:del-ok-leaves-address:%s:alloc=%s:del=%s", hk, p, fc),
+					Key: fmt.Sprintf("C38:del-ok-leaves-address:%s:alloc=%s:del=%s", hk, p, dc),
 					Msg: fmt.Sprintf("%s returned success but %s (block %s) is still allocated to handle %q (allocated by %s); handle objects now: %v",
 						r.label(), a.IP, a.Block, a.Handle, p, c38HandleObjs(r.Items)),
 				})
@@ -737,7 +758,7 @@ type c38Params struct {
 	Workers   int
 }
 
-func c38Explore(c *vk.Ctx, sc *c38Scenario, init []casstore.Item, p c38Params, locks []string, reps int) (states, trans int64) {
+func c38Explore(c *vk.Ctx, sc *c38Scenario, init []casstore.Item, p c38Params, locks []string, reps int, sampled *atomic.Bool) (states, trans int64, complete bool) {
 	root := &c38State{items: init, delOK: map[string]bool{}, prov: map[string]string{}}
 	for _, a := range c38Allocs(init) {
 		root.prov[a.Handle+"|"+a.IP] = "set-up"
@@ -745,7 +766,7 @@ func c38Explore(c *vk.Ctx, sc *c38Scenario, init []casstore.Item, p c38Params, l
 	seen := map[string]struct{}{root.key(): {}}
 	frontier := []*c38State{root}
 	states = 1
-	var sampled atomic.Bool
+	complete = true
 	for depth := 0; depth < p.Depth && len(frontier) > 0; depth++ {
 		type succ struct {
 			st  *c38State
@@ -790,7 +811,11 @@ func c38Explore(c *vk.Ctx, sc *c38Scenario, init []casstore.Item, p c38Params, l
 								c.Violation("C38:panic:"+r.Cmd.Op+":"+r.faultClass(), map[string]any{"scenario": sc.Name, "history": hist, "panic": r.Panic})
 								continue
 							}
-							n, fails, out := c38Step(sc, s, r, p.MaxFaulty > 0)
+							var base *c38Run
+							if len(r.Decs) > 0 {
+								base = runs[0]
+							}
+							n, fails, out := c38Step(sc, s, r, base, p.MaxFaulty > 0)
 							for _, f := range fails {
 								c.Violation(f.Key, map[string]any{"scenario": sc.Name, "history": hist, "msg": f.Msg, "last_command_trace": r.Points})
 							}
@@ -811,7 +836,8 @@ func c38Explore(c *vk.Ctx, sc *c38Scenario, init []casstore.Item, p c38Params, l
 		}
 		wg.Wait()
 		if stopped.Load() {
-			c.Capped(fmt.Sprintf("%s: deadline during depth %d (depth %d complete)", sc.Name, depth+1, depth))
+			c.Capped(fmt.Sprintf("%s (histories<=%d, faulty commands<=%d, faults/command<=%d): deadline during depth %d (depth %d complete)", sc.Name, p.Depth, p.MaxFaulty, p.MaxFaults, depth+1, depth))
+			complete = false
 			break
 		}
 		var nf []*c38State
@@ -904,7 +930,11 @@ func TestVerif_C38(t *testing.T) {
 						c.Violation("C38:panic:"+r.Cmd.Op+":"+r.faultClass(), map[string]any{"scenario": sc.Name, "history": d.History, "panic": r.Panic})
 						return
 					}
-					n, fails, out := c38Step(sc, s, r, false)
+					var base *c38Run
+					if len(decs) > 0 {
+						base = c38Exec(sc, s.items, cmd, nil, locks[0], sc.V4, sc.V6)
+					}
+					n, fails, out := c38Step(sc, s, r, base, false)
 					for _, f := range fails {
 						c.Violation(f.Key, map[string]any{"scenario": sc.Name, "history": d.History, "msg": f.Msg})
 					}
@@ -925,33 +955,33 @@ func TestVerif_C38(t *testing.T) {
 			return
 		}
 
-		p := c38Params{MaxFaults: c.Pick(1, 2), WithX: true, Workers: workers,
-			Cmds: []c38Cmd{{"ADD", "c1"}, {"DEL", "c1"}, {"ADD", "c2"}}}
+		p := c38Params{WithX: true, Workers: workers, Cmds: []c38Cmd{{"ADD", "c1"}, {"DEL", "c1"}, {"ADD", "c2"}}}
 		if c.Thorough() {
 			p.Cmds = append(p.Cmds, c38Cmd{"DEL", "c2"})
 		}
-		c.Rule("per scenario (single/dual stack, k8s / plain CNI args, legacy workload-id allocation, one family's pool full): breadth-first search over datastore states; " +
-			"from every state every command of {ADD(c1), DEL(c1), ADD(c2)" + map[bool]string{true: ", DEL(c2)", false: ""}[c.Thorough()] + "} is executed under every decision list with <= " + strconv.Itoa(p.MaxFaults) +
-			" faults (each backend call: error-before | lost reply after a write | genuine CAS conflict) and every order of ReleaseByHandle's loop over the handle's blocks; histories up to N" +
-			" commands (quick: 5 for the first scenario, 4 for the others; thorough: 6 / 5); states merged on the canonical IPAM store content. Non-trivial = an execution with at least one fault or non-default order, counted by (scenario, command, what the fault hit, outcome).")
+		c.Rule("per scenario (single/dual stack, k8s / plain CNI args, legacy workload-id allocation, one family's pool full; pools of 2 blocks x 2 addresses): breadth-first search over datastore states; " +
+			"from every state every command of {ADD(c1), DEL(c1), ADD(c2)" + map[bool]string{true: ", DEL(c2)", false: ""}[c.Thorough()] + "} is executed under every decision list " +
+			"(each backend call: proceed | error before | lost reply after a write | genuine CAS conflict; every order of ReleaseByHandle's loop over the handle's blocks); each scenario is searched in several passes " +
+			"(histories<=D, at most F commands of a history run with faults, at most N faults per command), e.g. quick cni-v4: (5,1,1) and (4,2,1); the `enum` lines of the run list them; " +
+			"states merged on the canonical IPAM store content. Non-trivial = an execution with a fault or a non-default order, counted by (scenario, command, what the fault hit, outcome).")
 		c.Assume("casstore behaves like the etcd/Kubernetes backends (per-key compare-and-swap, JSON value boundary); connection set-up in utils.CreateClient is replaced by a client over it")
 		c.Assume("one CNI command at a time on the node (the plugin's host-wide IPAM lock); IPCooldownSeconds=0 (default); no KubeVirt pods, no ipAddrs/IP= CNI argument, no namespace lookups")
 		callsBefore := maporder.Calls()
 		reps := 1
 		var totalS, totalT int64
+		var sampled atomic.Bool
+		var passes []map[string]any
+	scenarios:
 		for i := range scs {
 			sc := &scs[i]
-			p.Depth = c.Pick(sc.QDepth, sc.TDepth)
 			if v := os.Getenv("C38_ONLY"); v != "" && v != sc.Name {
 				continue
 			}
-			if v, err := strconv.Atoi(os.Getenv("C38_DEPTH")); err == nil {
-				p.Depth = v
+			plan := sc.Quick
+			if c.Thorough() {
+				plan = append(append([]c38Pass(nil), sc.Quick...), sc.Thorough...)
 			}
-			if v, err := strconv.Atoi(os.Getenv("C38_FCMDS")); err == nil {
-				p.MaxFaulty = v
-			}
-			if p.Depth == 0 {
+			if len(plan) == 0 {
 				continue
 			}
 			items, err := c38Template(sc, locks[0])
@@ -959,22 +989,29 @@ func TestVerif_C38(t *testing.T) {
 				c.ToolError(sc.Name + ": " + err.Error())
 				return
 			}
-			if i == 0 && maporder.Calls() == callsBefore {
+			if maporder.Calls() == callsBefore && reps == 1 {
 				// the loop in ReleaseByHandle is not under control: fall back to repeated runs under the runtime's own order
 				reps = 4
 				c.NotExhaustive("the map-order rewrite of ReleaseByHandle's `for blockStr := range handle.Block` did not apply: block orders are sampled by 4 repetitions instead of enumerated")
 			}
-			st, tr := c38Explore(c, sc, items, p, locks, reps)
-			totalS += st
-			totalT += tr
-			info("enum %-18s depth<=%d faults/cmd<=%d faulty-cmds<=%d states=%d executions=%d", sc.Name, p.Depth, p.MaxFaults, p.MaxFaulty, st, tr)
-			if c.Expired() {
-				break
+			for _, ps := range plan {
+				p.Depth, p.MaxFaulty, p.MaxFaults = ps.Depth, ps.Faulty, ps.PerCmd
+				st, tr, complete := c38Explore(c, sc, items, p, locks, reps, &sampled)
+				totalS += st
+				totalT += tr
+				info("enum %-18s histories<=%d faulty-commands<=%d faults/command<=%d states=%d executions=%d complete=%v", sc.Name, p.Depth, p.MaxFaulty, p.MaxFaults, st, tr, complete)
+				passes = append(passes, map[string]any{"scenario": sc.Name, "max_history": p.Depth, "max_faulty_commands": p.MaxFaulty, "max_faults_per_command": p.MaxFaults, "states": st, "executions": tr, "complete": complete})
+				if !complete {
+					break scenarios
+				}
 			}
 		}
-		info("INFO timing clone=%v cmd=%v cmd+snapshot=%v exec=%v", time.Duration(c38T[0].Load()), time.Duration(c38T[1].Load()), time.Duration(c38T[2].Load()), time.Duration(c38T[3].Load()))
+		c.Extra("passes", passes)
 		c.Add("states", totalS)
 		c.Add("transitions", totalT)
+		if !sampled.Load() {
+			c.Sample(map[string]any{"note": "no faulted history of length >= 3 was executed", "passes": passes})
+		}
 		restore()
 	})
 }
